@@ -38,20 +38,26 @@ on every denomination class), starts by demanding a hex receiver, calls `IBCCoin
 a coin is recognised as returning home by the packet's SOURCE channel; a keeper error becomes an error acknowledgement;
 `IntermediateSender` has no early return that hands a hex or bech32 sender string through -/
 theorem genCfg_recvOk : RecvOk genCfg := by
-  refine ⟨by decide, by decide, ?_, by decide, by decide, by decide, by decide, by decide, by decide⟩
-  intro d
-  cases d <;> simp [genCfg, FxVerif.Gen.C19.recvGuard, evalGuard, Denom.name?]
+  refine ⟨by decide, by decide, ?_, by decide, by decide, by decide, by decide, by decide, by decide, ?_⟩
+  · intro d
+    cases d <;> simp [genCfg, FxVerif.Gen.C19.recvGuard, evalGuard, Denom.name?]
+  · have hp : genCfg.parseProg = stdParseProg := by decide
+    intro src dst pd
+    rw [hp]
+    exact hookDenom_std src dst pd
 
 /-- the relation is recorded under the key of the transfer itself, both callbacks compute the key from the packet's
 SOURCE channel and its sequence, and every caller on the refund path (middleware -> keeper -> hook -> IBCCoinRefund ->
 IbcRefund -> ConvertCoin) hands its callee's error up to IBC core -/
 theorem genCfg_sound : Sound genCfg :=
-  ⟨by decide, by decide, by decide, by decide, by decide, by decide, by decide, by decide, by decide, by decide⟩
+  ⟨by decide, by decide, by decide, by decide, by decide, by decide, by decide, by decide, by decide, by decide, by decide,
+    by decide⟩
 
 /-- every branch of `OnAcknowledgementPacket` / `OnTimeoutPacket` deletes under the prefix, channel end and sequence the
 record was written under -/
 theorem genCfg_removes : Removes genCfg :=
-  ⟨by decide, by decide, by decide, by decide, by decide, by decide, by decide, by decide, by decide, by decide, by decide⟩
+  ⟨by decide, by decide, by decide, by decide, by decide, by decide, by decide, by decide, by decide, by decide, by decide,
+    by decide, by decide⟩
 
 /-- order of the steps inside `IBCMiddleware.OnAcknowledgementPacket` / `OnTimeoutPacket` (regenerated): the wrapped ICS-20
 application FIRST (it hands the coins back), then the keeper hook (it converts what was handed back), every error
@@ -64,6 +70,41 @@ theorem genCfg_middleware_steps :
     FxVerif.Gen.C19.ackMiddlewareSteps =
       ["decode-ack:returned", "canonical-ack:returned", "app:returned", "decode-data:returned", "hook:returned"] ∧
     FxVerif.Gen.C19.timeoutMiddlewareSteps = ["app:returned", "decode-data:returned", "hook:returned"] := by decide
+
+
+/-- `IBCMiddleware.OnAcknowledgementPacket` / `OnTimeoutPacket` as PROGRAMS (regenerated (step, error treatment) lists, in
+statement order): the model does not assume an order — `settleAckState` / the timeout FOLD over these lists (`runMw`:
+balances threaded through the steps in list order, a returned error aborts the run) —; this theorem states which lists the
+tree has: decode once, demand the canonical encoding, application, packet data, keeper hook; every error returned. -/
+theorem genCfg_middleware_prog :
+    genCfg.ackSteps = stdAckSteps ∧ genCfg.timeoutSteps = stdTimeoutSteps ∧
+    (∀ s l seq p w, settleAckState genCfg s l seq p w =
+      runMw genCfg s l seq p (mwInOfAck genCfg w) FxVerif.Gen.C19.ackMiddlewareProg) ∧
+    (∀ s l seq p, settleState genCfg s l seq p .timeout =
+      runMw genCfg s l seq p (mwInOfTimeout genCfg) FxVerif.Gen.C19.timeoutMiddlewareProg) :=
+  ⟨by decide, by decide, fun _ _ _ _ _ => rfl, fun _ _ _ _ => rfl⟩
+
+/-- For EVERY configuration whose step lists are the standard ones, the fold is "the application's decision and refund,
+then the hook's on the resulting balances" (`settleBy`), and nothing at all for bytes that do not decode or are not the
+canonical encoding — whatever the two decoder runs make of them. -/
+theorem standard_steps_are_app_then_hook (cfg : Cfg) (h : cfg.ackSteps = stdAckSteps) (s : State) (l : Ch) (seq : Seq) (p : Pkt)
+    (w : AckWire) :
+    settleAckState cfg s l seq p w =
+      if !w.isCanonical then none else
+      match cfg.appRefunds w with
+      | none => none
+      | some ar => settleBy cfg s l seq p ar (cfg.ackAct w) :=
+  settleAckState_std cfg s l seq p w h
+
+example : (refCfg 4).ackSteps = stdAckSteps := rfl
+
+/-- … and the timeout: with the standard list it is the transfer application's refund followed by the hook's conversion of
+what was handed back (`refundState`) -/
+theorem standard_timeout_steps_are_app_then_hook (cfg : Cfg) (h : cfg.timeoutSteps = stdTimeoutSteps) (s : State) (l : Ch)
+    (seq : Seq) (p : Pkt) : settleState cfg s l seq p .timeout = refundState cfg s l seq p cfg.timeoutRefunds :=
+  runMw_std_timeout cfg s l seq p h
+
+example : (refCfg 4).timeoutSteps = stdTimeoutSteps := rfl
 
 /-! ## 1. inbound transfer: exact credit in ERC-20 form, or error acknowledgement and nothing changes -/
 
@@ -80,7 +121,7 @@ it), of any denomination class: either the acknowledgement is a success and
 or the acknowledgement is an error and the state is exactly the old one. -/
 theorem recv_credit_or_error (s : State) (l : Ch) (t : Tok) (to : Addr) (amt : Nat) (m : Memo) (snd : Nat) :
     let r := step s (.recv l t .hex to amt m snd)
-    (r.2.isRecv true ∧ 0 < amt ∧ r.1.ctl = s.ctl ∧ t ≠ .U ∧ t ≠ .X ∧ (t = .A → genCfg.aliasFirst = true) ∧
+    (r.2.isRecv true ∧ 0 < amt ∧ r.1.ctl = s.ctl ∧ t ≠ .U ∧ t ≠ .X ∧ t ≠ .Y ∧ (t = .A → genCfg.aliasFirst = true) ∧
       (t = .F →
         (to ≠ escrow l → sget r.1.bal.bank (to, Denom.fx) = sget s.bal.bank (to, Denom.fx) + amt) ∧
         (∀ a d, d ≠ Denom.fx → sget r.1.bal.bank (a, d) = sget s.bal.bank (a, d)) ∧
@@ -131,6 +172,55 @@ theorem recv_memo_pay_never_moves_local_funds (s : State) (l : Ch) (t : Tok) (k 
 theorem recv_keeps_bookkeeping (s : State) (l : Ch) (t : Tok) (k : RKind) (to : Addr) (amt : Nat) (m : Memo) (snd : Nat) :
     (step s (.recv l t k to amt m snd)).1.ctl = s.ctl :=
   recvWith_ctl genCfg s l t k to amt m snd
+
+
+/-! ## 1b. the denomination the middleware believes it received is the one the transfer application credited -/
+
+/-- `parseIBCCoinDenom` (regenerated decision program, INTERPRETED by `hookDenom`) answers — for EVERY packet denomination
+path: any number of hops, any base name (the chain's own `FX` included), on any channel with any pair of ids — exactly
+the denomination under which the ibc-go transfer application credits the receiver (`appDenom`, modelled dependency).  So
+the decision "is this the chain's own coin, or must it be moved into its ERC-20 form" is always taken about the coin
+that was really credited: a foreign coin merely NAMED `FX`, or FX that arrives over another route, is a voucher for the
+hook too. -/
+theorem parse_recomputes_credited_denom (src dst : Ch) (pd : PDenom) :
+    hookDenom genCfg.parseProg src dst pd = appDenom src dst pd :=
+  genCfg_recvOk.parse src dst pd
+
+/-- … in particular for the packet classes of the model: the hook sees `bankDenom t l` -/
+theorem hook_sees_credited_denom (src l : Ch) (t : Tok) : hookSees genCfg src l t = some (bankDenom t l) :=
+  hookSees_ok genCfg genCfg_recvOk.parse src l t
+
+/-- only `FX` that really returns home (a path that is exactly our prefix in front of the bare name) is the chain's own coin
+for the hook; every other path with base name `FX` is a voucher -/
+theorem only_returning_fx_is_native (src dst : Ch) (hops : List Ch) :
+    hookDenom genCfg.parseProg src dst ⟨hops, "FX"⟩ = .native "FX" ↔ hops = [src] := by
+  rw [parse_recomputes_credited_denom]
+  unfold appDenom stripHop
+  cases hops with
+  | nil => simp
+  | cons h rest =>
+    by_cases hh : h = src
+    · subst hh
+      cases rest <;> simp
+    · simp [hh]
+
+/-- why the WHOLE path must decide (tree independent): a "fast path" in front of the program that answers `FX` whenever the
+BASE name of the path is `FX`.  A foreign coin that is merely named `FX` (class `W`, registered with an ERC-20 pair of its
+own) addressed to a hex account is then acknowledged as a success with the amount left as a BANK voucher and nothing
+credited in ERC-20 form; FX arriving over another route (class `Y`, not registered) is acknowledged as a success instead
+of being rejected.  With the program of the tree the first is credited as ERC-20 and the second is an error
+acknowledgement that changes nothing. -/
+theorem base_name_fast_path_witness :
+    let fast : Cfg := { refCfg 4 with parseProg := (.baseEq "FX", .const "FX") :: stdParseProg }
+    let s := runWith (refCfg 4) init [Op.chan 0 1]
+    (stepWith fast s (.recv 0 .W .hex 9 7 .none 0)).2 = .recv true 7 0 0 0 0 0 none ∧
+    (stepWith (refCfg 4) s (.recv 0 .W .hex 9 7 .none 0)).2 = .recv true 0 7 0 7 7 0 none ∧
+    (stepWith fast s (.recv 0 .Y .hex 9 7 .none 0)).2 = .recv true 7 0 0 0 0 0 none ∧
+    stepWith (refCfg 4) s (.recv 0 .Y .hex 9 7 .none 0) = (s, .recv false 0 0 0 0 0 0 none) ∧
+    -- genuine FX coming home is treated alike by both
+    (let s' := runWith (refCfg 4) init [Op.chan 0 1, .fund 1 .F 0 100, .csend 0 1 .F 50, .settle 0 1 .ackOk]
+     stepWith fast s' (.recv 0 .F .hex 2 9 .none 0) = stepWith (refCfg 4) s' (.recv 0 .F .hex 2 9 .none 0)) := by
+  decide
 
 /-! ## 2. the memo-call sender cannot be a local account -/
 
@@ -395,7 +485,7 @@ theorem alias_metadata_refund_stuck (cfg : Cfg) (hs : Sound cfg) (hE : cfg.ackEr
   exact settle_refund_stuck cfg hs hE hT (runWith cfg init ops) e mode hm h he hB hc ⟨haf, hmeta⟩
 
 -- the hypotheses are satisfiable: the pre-fix reference configuration is sound
-example : Sound (refCfg 4) ∧ (refCfg 4).aliasFirst = false := ⟨⟨rfl, rfl, rfl, rfl, rfl, rfl, rfl, rfl, rfl, by decide⟩, rfl⟩
+example : Sound (refCfg 4) ∧ (refCfg 4).aliasFirst = false := ⟨⟨rfl, rfl, rfl, rfl, rfl, rfl, rfl, rfl, rfl, by decide, rfl, rfl⟩, rfl⟩
 
 /-- witness (tree independent): metadata on the voucher of channel 0, transfer of 40 started from the EVM, timeout -/
 theorem alias_metadata_refund_stuck_witness :
@@ -416,9 +506,9 @@ Both are regenerated as decision programs — `Keeper.OnAcknowledgementPacket` o
 named in go.mod — and interpreted on every shape.  For EVERY shape the codec accepts: the hook refunds exactly when the
 application refunds, and runs the success clean-up otherwise.  In particular an error acknowledgement with an empty
 reason is a failure for both, and a result without content or an acknowledgement with no arm is a success for both. -/
-theorem ack_decision_agrees (w : AckWire) (b : Bool) (h : genCfg.appRefunds w = some b) :
+theorem ack_decision_agrees (w : AckWire) (hcan : w.isCanonical = true) (b : Bool) (h : genCfg.appRefunds w = some b) :
     genCfg.ackAct w = if b then .refund else .after :=
-  ackAgrees_at genCfg (by decide) w b h
+  ackAgrees_at genCfg (by decide) w hcan b h
 
 /-- what the application decides, shape by shape (regenerated from the module cache): it refunds on the error arm —
 whatever the text —, not on the result arm or on an acknowledgement with no arm, and fails on undecodable bytes -/
@@ -430,16 +520,16 @@ theorem app_ack_decision :
 /-- For every state: an acknowledgement on the wire that the application classifies (`b` = it refunds) is processed
 EXACTLY as the settlement of that class — so every statement of this file about `.settle l seq .ackErr` / `.ackOk` holds
 for every acknowledgement of that class, whatever its content.  Depends on the regenerated decision programs. -/
-theorem wire_ack_settles_as_classified (s : State) (l : Ch) (seq : Seq) (w : AckWire) (b : Bool)
+theorem wire_ack_settles_as_classified (s : State) (l : Ch) (seq : Seq) (w : AckWire) (hcan : w.isCanonical = true) (b : Bool)
     (h : genCfg.appRefunds w = some b) :
     step s (.ackw l seq w) = step s (.settle l seq (if b then .ackErr else .ackOk)) :=
-  stepWith_ackw genCfg (by decide) (by decide) (by decide) s l seq w b h
+  stepWith_ackw genCfg (by decide) (by decide) (by decide) (by decide) s l seq w hcan b h
 
 /-- bytes the codec rejects: the callback returns an error, IBC core rolls the relayer's transaction back, nothing
 changes and the packet stays committed (or there is no such packet) -/
 theorem wire_ack_undecodable_changes_nothing (s : State) (l : Ch) (seq : Seq) :
     step s (.ackw l seq .undecodable) = (s, .stuck s.ctl.rel) ∨ step s (.ackw l seq .undecodable) = (s, .noop s.ctl.rel) :=
-  stepWith_ackw_undecodable genCfg s l seq .undecodable (by decide)
+  stepWith_ackw_undecodable genCfg (by decide) s l seq .undecodable (Or.inl (by decide))
 
 /-- C19, refund clause, for acknowledgements as they are on the wire: in any reachable state, EVERY error acknowledgement
 of an in-flight EVM-originated transfer of the aliased token — with a reason or with an empty one — raises the sender's
@@ -459,20 +549,19 @@ theorem wire_error_ack_refunds_erc20 (ops : List Op) (e : SentRec) (nonEmpty : B
     r.1.ctl.refundLog = ⟨e.ch, e.seq, e.sender, .A, e.amt, true⟩ :: s.ctl.refundLog ∧
     r.1.ctl.rel = dropRel s.ctl.rel (e.ch, e.seq) := by
   have hcl : genCfg.appRefunds (.error nonEmpty) = some true := by cases nonEmpty <;> decide
-  have := wire_ack_settles_as_classified (run init ops) e.ch e.seq (.error nonEmpty) true hcl
+  have := wire_ack_settles_as_classified (run init ops) e.ch e.seq (.error nonEmpty) rfl true hcl
   simp only [↓reduceIte] at this
-  intro s r
-  show (step (run init ops) (.ackw e.ch e.seq (.error nonEmpty))).2.isDone ∧ _
-  rw [this]
-  exact evm_refund_credits_erc20 ops e .ackErr (by decide) he hB hc hon
+  have key := evm_refund_credits_erc20 ops e .ackErr (by decide) he hB hc hon
+  simp only [← this] at key
+  exact key
 
 /-- … and every acknowledgement that is not an error — result with or without content, no arm set — of ANY committed
 transfer changes no balance of anybody, refunds nothing, and removes exactly the record of that transfer -/
-theorem wire_success_ack_only_removes_record (s : State) (l : Ch) (seq : Seq) (w : AckWire)
+theorem wire_success_ack_only_removes_record (s : State) (l : Ch) (seq : Seq) (w : AckWire) (hcan : w.isCanonical = true)
     (hw : genCfg.appRefunds w = some false) :
     let r := step s (.ackw l seq w)
     r.1.bal = s.bal ∧ r.1.ctl.refundLog = s.ctl.refundLog ∧ (r.2.isDone → r.1.ctl.rel = dropRel s.ctl.rel (l, seq)) := by
-  have := wire_ack_settles_as_classified s l seq w false hw
+  have := wire_ack_settles_as_classified s l seq w hcan false hw
   simp only [Bool.false_eq_true, ↓reduceIte] at this
   show (step s (.ackw l seq w)).1.bal = s.bal ∧ (step s (.ackw l seq w)).1.ctl.refundLog = s.ctl.refundLog ∧
     ((step s (.ackw l seq w)).2.isDone → (step s (.ackw l seq w)).1.ctl.rel = dropRel s.ctl.rel (l, seq))
@@ -491,6 +580,97 @@ example : (step (run init [.chan 0 1, .fund 5 .A 0 100, .send 0 5 .A 40]) (.ackw
 example : (step (run init [.chan 0 1, .fund 5 .A 0 100, .send 0 5 .A 40]) (.ackw 0 1 .unset)).2 = .done 60 0 0 0 60 60 [] := by
   decide
 example : (step (run init [.chan 0 1, .fund 5 .A 0 100, .send 0 5 .A 40]) (.ackw 0 1 .undecodable)).2 = .stuck [(0, 1)] := by
+  decide
+
+
+/-- Bytes that DECODE but are not the canonical encoding of an acknowledgement — both arms of the oneof, another key order,
+extra whitespace, escaped characters; whatever the application's decoder run (`a`) and the middleware's (`m`) make of
+them, equal or different —: the callback returns an error before the application runs, IBC core rolls the relayer's
+transaction back, NOTHING changes and the packet stays committed (or there is no such packet).  Depends on the
+regenerated step list (the canonical check in front of the application, its error returned): fix `d4b7c5e`. -/
+theorem non_canonical_ack_changes_nothing (s : State) (l : Ch) (seq : Seq) (a m : Nat) :
+    step s (.ackw l seq (.nonCanonical a m)) = (s, .stuck s.ctl.rel) ∨
+    step s (.ackw l seq (.nonCanonical a m)) = (s, .noop s.ctl.rel) :=
+  stepWith_ackw_undecodable genCfg (by decide) s l seq (.nonCanonical a m) (Or.inr rfl)
+
+/-- … so the transfer is still in flight and can still time out (or be acknowledged properly): in any reachable state, a
+non-canonical acknowledgement of an in-flight EVM-originated transfer of the aliased token followed by its timeout (or
+a proper error acknowledgement) refunds the sender in ERC-20 form exactly as if the non-canonical bytes had never been
+relayed. -/
+theorem non_canonical_ack_then_refund (ops : List Op) (e : SentRec) (a m : Nat) (mode : Mode) (hm : mode ≠ .ackOk)
+    (he : e ∈ (run init ops).ctl.evmSent) (hB : e.tok = .A)
+    (hc : ∃ x ∈ (run init ops).ctl.commits, x.1 = e.key)
+    (hon : (run init ops).bal.paused = false ∧ (run init ops).bal.off.contains ETok.base = false) :
+    let s := run init ops
+    let s1 := (step s (.ackw e.ch e.seq (.nonCanonical a m))).1
+    let r := step s1 (.settle e.ch e.seq mode)
+    s1 = s ∧ r.2.isDone ∧
+    sget r.1.bal.erc (e.sender, ETok.base) = sget s.bal.erc (e.sender, ETok.base) + e.amt ∧
+    r.1.ctl.refundLog = ⟨e.ch, e.seq, e.sender, .A, e.amt, true⟩ :: s.ctl.refundLog ∧
+    r.1.ctl.rel = dropRel s.ctl.rel (e.ch, e.seq) := by
+  have h1 : (step (run init ops) (.ackw e.ch e.seq (.nonCanonical a m))).1 = run init ops := by
+    rcases non_canonical_ack_changes_nothing (run init ops) e.ch e.seq a m with h | h <;> rw [h]
+  have key := evm_refund_credits_erc20 ops e mode hm he hB hc hon
+  simp only [h1]
+  exact ⟨trivial, key.1, key.2.1, key.2.2.2.2.1, key.2.2.2.2.2⟩
+
+/-- The same for EVERY configuration and EVERY step list of the shape "steps that are neither the application nor the hook,
+then a canonical-encoding check whose error is returned, then anything": bytes the codec rejects and bytes that are not
+the canonical encoding make the callback fail before the application or the hook has run — in whatever order those two
+come afterwards, whatever they would decide.  (The repaired tree is the instance `pre = [decode-ack]`.) -/
+theorem canonical_check_first_blocks (cfg : Cfg) (pre post : List (String × String))
+    (h : cfg.ackSteps = pre ++ ("canonical-ack", "returned") :: post)
+    (hpre : ∀ st ∈ pre, st.1 ≠ "app" ∧ st.1 ≠ "hook") (s : State) (l : Ch) (seq : Seq) (p : Pkt) (w : AckWire)
+    (hw : w.isCanonical = false ∨ w = .undecodable) :
+    settleAckState cfg s l seq p w = none := by
+  unfold settleAckState runMw
+  rw [h, mwFold_canonical_first cfg s.ctl l seq p _ ?_ pre post hpre]
+  · rfl
+  · rcases hw with hw | hw
+    · simp [mwInOfAck, hw]
+    · subst hw; rfl
+
+-- the hypotheses are met by the regenerated list, with `pre = [decode-ack]`
+example : genCfg.ackSteps = [("decode-ack", "returned")] ++ ("canonical-ack", "returned") :: [("app", "returned"), ("decode-data", "returned"), ("hook", "returned")] ∧
+    (∀ st ∈ [(("decode-ack", "returned") : String × String)], st.1 ≠ "app" ∧ st.1 ≠ "hook") := by decide
+
+-- non-vacuity: both-arms bytes on an in-flight transfer: stuck, then the timeout refunds 40 as ERC-20
+example : (step (run init [.chan 0 1, .fund 5 .A 0 100, .send 0 5 .A 40]) (.ackw 0 1 (.nonCanonical 2 0))).2 = .stuck [(0, 1)] := by
+  decide
+example : (step (step (run init [.chan 0 1, .fund 5 .A 0 100, .send 0 5 .A 40]) (.ackw 0 1 (.nonCanonical 2 0))).1
+    (.settle 0 1 .timeout)).2 = .done 100 0 0 0 100 100 [] := by
+  decide
+
+/-- why the canonical check must come FIRST (tree independent; the defect found in round 3 and repaired by `d4b7c5e`, as a
+statement about step lists): the same acknowledgement bytes carrying both arms, read as an error by the application's
+decoder run and as a result by the middleware's.  With the former list — application first, no canonical check — the
+application hands the voucher back, the hook runs the success clean-up: the sender of an EVM-originated transfer keeps 40
+in BANK form, gets no ERC-20 back and the record is gone for good.  With the standard list nothing happens and the later
+timeout refunds 40 as ERC-20. -/
+theorem both_arms_without_canonical_check_witness :
+    let ops := [Op.chan 0 1, .fund 5 .A 0 100, .send 0 5 .A 40, .ackw 0 1 (.nonCanonical 2 0), .settle 0 1 .timeout]
+    let oldSteps := [("app", "returned"), ("decode-ack", "returned"), ("decode-data", "returned"), ("hook", "returned")]
+    let old : Cfg := { refCfg 4 with aliasFirst := true, ackSteps := oldSteps }
+    let bad := runWith old init ops
+    let good := runWith { refCfg 4 with aliasFirst := true } init ops
+    sget bad.bal.erc (5, ETok.base) = 60 ∧ sget bad.bal.bank (5, Denom.vA 0) = 40 ∧ bad.ctl.rel = [] ∧
+      bad.ctl.refundLog = [⟨0, 1, 5, .A, 40, false⟩] ∧
+    sget good.bal.erc (5, ETok.base) = 100 ∧ sget good.bal.bank (5, Denom.vA 0) = 0 ∧ good.ctl.rel = [] ∧
+      good.ctl.refundLog = [⟨0, 1, 5, .A, 40, true⟩] := by
+  decide
+
+/-- why the application must run BEFORE the hook (tree independent): with the two steps swapped the hook looks for the
+voucher before the application has handed it back, its error is returned, and the error acknowledgement / timeout of an
+EVM-originated transfer can never be processed: the state after any number of retries is the state before. -/
+theorem hook_before_application_witness :
+    let ops := [Op.chan 0 1, .fund 5 .A 0 100, .send 0 5 .A 40]
+    let ackSwapped := [("decode-ack", "returned"), ("canonical-ack", "returned"), ("hook", "returned"), ("decode-data", "returned"), ("app", "returned")]
+    let toSwapped := [("hook", "returned"), ("decode-data", "returned"), ("app", "returned")]
+    let swapped : Cfg := { refCfg 4 with aliasFirst := true, ackSteps := ackSwapped, timeoutSteps := toSwapped }
+    let s := runWith swapped init ops
+    stepWith swapped s (.ackw 0 1 (.error true)) = (s, .stuck [(0, 1)]) ∧
+    stepWith swapped s (.settle 0 1 .timeout) = (s, .stuck [(0, 1)]) ∧
+    (stepWith { refCfg 4 with aliasFirst := true } s (.settle 0 1 .timeout)).2 = .done 100 0 0 0 100 100 [] := by
   decide
 
 /-- why the KIND and not the TEXT must decide (tree independent): a hook that treats an acknowledgement as rejected only
@@ -529,7 +709,7 @@ theorem relation_removed_on_failure_partial (s : State) (l : Ch) (seq : Seq) (mo
   have hP : genCfg.deleteReports = true := by decide
   intro r hd
   have hX : genCfg.refundErrPropagates = true := by decide
-  have := settle_removes_failure genCfg hE hT hS hC hQ hP hX s l seq mode hm hd
+  have := settle_removes_failure genCfg hE hT hS hC hQ hP hX (by decide) s l seq mode hm hd
   refine ⟨?_, this⟩
   show (l, seq) ∉ (stepWith genCfg s (.settle l seq mode)).1.ctl.rel
   rw [this]; exact not_mem_dropRel _ _
@@ -733,6 +913,11 @@ example : (stepWith { refCfg 4 with memoChan := .dst } (runWith (refCfg 4) init 
 example : (step (run init [.chan 0 1]) (.recv 0 .V .hex 9 7 .callok 1)).2 =
     .recv true 0 7 0 7 7 1 (some (.derived (genCfg.memoChan.pick 1 0) 1)) := by decide
 example : (step (run init [.chan 0 1]) (.recv 0 .X .hex 9 7 .none 0)).2 = .recv false 0 0 0 0 0 0 none := by decide
+-- a foreign coin named like the chain's own, a multi-hop voucher with a pair: credited as ERC-20; FX over another route: rejected
+example : (step (run init [.chan 0 1]) (.recv 0 .W .hex 9 7 .none 0)).2 = .recv true 0 7 0 7 7 0 none := by decide
+example : (step (run init [.chan 0 1]) (.recv 0 .Z .hex 9 7 .none 0)).2 = .recv true 0 7 0 7 7 0 none := by decide
+example : (step (run init [.chan 0 1]) (.recv 0 .Y .hex 9 7 .none 0)).2 = .recv false 0 0 0 0 0 0 none := by decide
+example : (step (run init [.chan 0 1]) (.recv 0 .W .bech 9 7 .none 0)).2 = .recv false 0 0 0 0 0 0 none := by decide
 example : (stepWith (refCfg 4) (runWith (refCfg 4) init [.chan 0 1]) (.recv 0 .A .hex 9 7 .none 0)).2 = .recv false 0 0 0 0 0 0 none := by
   decide
 example : (stepWith { refCfg 4 with aliasFirst := true } (runWith (refCfg 4) init [.chan 0 1]) (.recv 0 .A .hex 9 7 .none 0)).2 =
@@ -759,7 +944,11 @@ Theorems of this file:
   success_ack_keeps_relation_general, crossed_channels_wrong_end_witness, returning_native_coin_guard_witness,
   settled_is_final, relation_key_text, relation_key_injective, send_records_own_key, erc20_supply_backed,
   ack_decision_agrees, app_ack_decision, wire_ack_settles_as_classified, wire_ack_undecodable_changes_nothing,
-  wire_error_ack_refunds_erc20, wire_success_ack_only_removes_record, empty_error_text_witness, genCfg_middleware_steps
+  wire_error_ack_refunds_erc20, wire_success_ack_only_removes_record, empty_error_text_witness, genCfg_middleware_steps,
+  (round 4) genCfg_middleware_prog, standard_steps_are_app_then_hook, standard_timeout_steps_are_app_then_hook, parse_recomputes_credited_denom,
+  hook_sees_credited_denom, only_returning_fx_is_native, base_name_fast_path_witness, non_canonical_ack_changes_nothing,
+  non_canonical_ack_then_refund, canonical_check_first_blocks, both_arms_without_canonical_check_witness,
+  hook_before_application_witness
 -/
 
 end FxVerif.Props.C19
